@@ -676,6 +676,30 @@ func streamAllow(g *G) { // C04
 		g.serveLine("serve", rid, "OPTIONS", "*", "", nil)
 		g.emit("routes %d", rid)
 		rid++
+		if g.chance(0.4) {
+			// method sets are shared between nodes and routers through a process-wide table: a router with CORS answers
+			// preflights from that table (sets with TRACE through WithTrace, with CONNECT through the whole AnyMethods list);
+			// afterwards the sets of the same and of an unrelated router must still read the same
+			tr := g.chance(0.6)
+			ms := [][]string{{"GET"}, {"GET", "POST"}, {"GET", "DELETE", "PATCH", "POST", "PUT", "CONNECT"}, {"CONNECT"}}[g.intn(4)]
+			a, b := rid, rid+1
+			rid += 2
+			g.routerLine(a, routerOpt{name: "corsa", trace: tr, cors: true, origins: []string{"*"}, allowH: []string{"*"}, maxAge: 5})
+			g.routerLine(b, routerOpt{name: "plainb", trace: tr})
+			for _, r := range []int{a, b} {
+				g.emit("handle %d /users %d %%- %s", r, r, encL(ms))
+				g.emit("routes %d", r)
+			}
+			for _, acrm := range []string{ms[0], "PUT", "TRACE"} {
+				g.serveLine("serve", a, "OPTIONS", "/users", "", []kv{{"Origin", "https://a.example"}, {"Access-Control-Request-Method", acrm}})
+			}
+			for _, r := range []int{a, b} {
+				g.emit("routes %d", r)
+				g.serveLine("serve", r, "OPTIONS", "/users", "", nil)
+				g.serveLine("serve", r, "LINK", "/users", "", nil)
+				g.serveLine("serve", r, "OPTIONS", "*", "", nil)
+			}
+		}
 		g.history(rid, histCfg{trace: g.chance(0.5), probes: 1, probeAll: true, siblings: g.chance(0.2)}, 8+g.intn(20))
 		rid++
 	}
@@ -1072,6 +1096,33 @@ func streamOnion(g *G) { // C09
 		}
 		g.emit("mw-calls")
 		rid++
+		if g.chance(0.5) {
+			// Use AFTER a pattern was emptied by name while its node stayed in the tree (it has a child) and was registered
+			// again: the later Use must wrap the revived handlers like every other one (state kept beside the tree — a list
+			// of nodes with handlers, say — must follow Remove AND the re-registration)
+			g.routerLine(rid, routerOpt{name: "rev", trace: g.chance(0.4)})
+			pa := g.pick([]string{"/a", "/v/{id}", "/s"})
+			g.emit("handle %d %s 1 %s %s", rid, encB(pa), encNatList(g.mwList()), encL([]string{"GET"}))
+			g.emit("handle %d %s 2 %%- %s", rid, encB(pa+"/b"), encL([]string{"GET", "POST"}))
+			if g.chance(0.5) {
+				g.emit("remove %d %s %s", rid, encB(pa), encL([]string{"GET"}))
+			} else {
+				g.emit("remove %d %s %%-", rid, encB(pa))
+			}
+			if g.chance(0.3) {
+				g.emit("use %d %s", rid, encNatList(g.mwList()))
+			}
+			g.emit("handle %d %s 3 %s %s", rid, encB(pa), encNatList(g.mwList()), encL([]string{g.pick([]string{"GET", "PUT"})}))
+			g.emit("mw-calls")
+			g.emit("use %d %s", rid, encNatList([]int{1 + g.intn(9)}))
+			g.emit("mw-calls")
+			for _, p := range []string{pa, pa + "/b", "/nf"} {
+				for _, m := range []string{"GET", "HEAD", "OPTIONS", "POST", "PUT"} {
+					g.serveLine("serve", rid, m, g.instantiate(p, []string{"5"}), "", nil)
+				}
+			}
+			rid++
+		}
 		// facades and a group
 		g.emit("group %d 0 %s %%_ %%- 0 %%- %%- %%- 0 0", gid, b2s(g.chance(0.5)))
 		if g.chance(0.5) {
@@ -1301,6 +1352,9 @@ func streamCors(g *G) { // C11, C12
 				{"remove %d /a " + encL([]string{"DELETE"})},                                    // a method the route may not have: ignored
 				{"remove %d /a " + encL([]string{"PATCH", "CONNECT"}), "remove %d /a " + encL([]string{"PATCH"})}, // twice
 				{"remove %d " + encB("/u/{id}") + " " + encL([]string{"PUT"})},
+				{"remove %d /a " + encL([]string{"POST", "PATCH"})},                                // a live method first, an absent one LAST
+				{"remove %d /a " + encL([]string{"GET", "CONNECT", "TRACE"})},                      // the same with GET (HEAD goes with it)
+				{"remove %d " + encB("/u/{id}") + " " + encL([]string{"GET", "PUT", "DELETE"})}, // everything it has, then an absent one
 				{"handle %d /b 5 %%- " + encL([]string{"PUT"})},
 				{"clean %d /u"},
 				{"remove %d /a %%-", "handle %d /a 6 %%- " + encL([]string{"PUT"})},
@@ -1541,6 +1595,28 @@ func streamHosts(g *G) { // C14
 			g.emit("hosts-add %d %s", hid, encB("{sub:[a-z]+}.example.com")) // the same domain in lower case: a duplicate
 			probe()
 			g.emit("hosts-del %d %s", hid, encB("{SUB:[a-z]+}.EXAMPLE.com"))
+			probe()
+			hid++
+		}
+		if g.chance(0.3) {
+			// wildcard domains whose parameter is IGNORED ({-sub}): an accepting Match writes no parameter, exactly like a literal
+			// domain; repeated matches of one host around Delete/Add of the wildcard (in another spelling) and of a literal
+			// neighbour: the answer is that of the CURRENT table every time
+			wild := g.pick([]string{"{-sub}.example.com", "{-sub:[a-z]+}.example.com", "{-s}.cdn.example.net"})
+			lit := "static.example.com"
+			host := g.pick([]string{"img.example.com", "img.cdn.example.net", "IMG.example.com:8080"})
+			g.emit("hosts %d %s", hid, encL([]string{wild, lit}))
+			probe := func() {
+				for _, h := range []string{host, lit, "Static.Example.com", "x.y.example.org", host} { // the wildcard host FIRST and LAST: a one-entry memo keeps it over the next table change
+					g.emit("hosts-match %d %s", hid, encB(h))
+				}
+			}
+			probe()
+			g.emit("hosts-del %d %s", hid, encB(strings.ToUpper(wild[:5])+wild[5:]))
+			probe()
+			g.emit("hosts-del %d %s", hid, encB(lit))
+			probe()
+			g.emit("hosts-add %d %s", hid, encB(wild))
 			probe()
 			hid++
 		}
